@@ -769,7 +769,11 @@ fn finish(spec: &PropSpec, ctx: &mut Ctx, mut broken: Vec<String>) -> i32 {
         let _ = writeln!(stdout, "  what: {what}");
         let mut d = v["detail"].to_string();
         if d.len() > 1500 {
-            d.truncate(1500);
+            let mut cut = 1500;
+            while !d.is_char_boundary(cut) {
+                cut -= 1;
+            }
+            d.truncate(cut);
             d.push_str("...");
         }
         let _ = writeln!(stdout, "  detail: {d}");
